@@ -481,9 +481,11 @@ Definition cascade (own root : option metadict) : option metadict :=
 (* ---- B. generations ---------------------------------------------------------------------
    v1/loaders.py load_func_for_dataclass.  `s_init`: the init fields of the dataclass in
    declaration order, INCLUDING the CatchAll field (`if_default` = name in field_to_default:
-   default or default_factory).  `s_catch`: the CATCH_ALL marker of the alias table
-   (class_helper.py: name, '?' iff `f.default is not MISSING` — a default_factory gives no
-   '?').  A generation is handed the table `tbl` = dataclass_init_fields(cls) (a list built
+   default or default_factory).  `s_catch`: the CATCH_ALL marker of the alias table as the
+   generator reads it (name, '?').  class_helper.py (after fix d23b12f, finding F91) writes
+   '?' iff the field has a default OR a default_factory, i.e. iff `if_default`: `class_marker`
+   / `mk_src` below; before the fix only a plain default gave '?' (`pre_fix` witness in
+   props/C10.v).  A generation is handed the table `tbl` = dataclass_init_fields(cls) (a list built
    for this call) and derives the names from it; it deletes the CatchAll field from ITS list
    (`del cls_init_fields[catch_all_idx]`).  The final call is
    `cls( *positional, **init_kwargs)`: required fields positionally in field order, the
@@ -751,9 +753,10 @@ Arguments XRaw {raw V} r.
 Arguments XTag {raw V} t.
 
 (* ---- B'. the classes for which the positional call is by-name correct ----------------------
-   dataclass order (required fields before defaulted ones) and a CatchAll field whose '?' flag
-   agrees with `name in field_to_default` — i.e. NOT a CatchAll field with a default_factory
-   (no '?' although it has a default: finding F91). *)
+   dataclass order (required fields before defaulted ones) and a CatchAll marker whose '?' flag
+   agrees with `name in field_to_default`.  The repaired class_helper computes the marker from
+   the field itself (`class_marker`), so every class in dataclass order is regular
+   (`mk_src`); the pre-fix marker of a default_factory CatchAll field had no '?' (F91, fixed). *)
 Fixpoint req_then_opt (l : list ifield) : bool :=
   match l with
   | [] => true
@@ -767,6 +770,21 @@ Definition src_regular (src : v1src) : bool :=
   | Some (cf, q) =>
       forallb (fun f => if pstr_eqb (if_name f) cf then Bool.eqb (if_default f) q else true) (s_init src)
   end.
+
+(* _setup_v1_load_config_for_cls: CATCH_ALL -> name + ('' if f.default is MISSING and
+   f.default_factory is MISSING else '?') for the field annotated CatchAll *)
+Definition class_marker (init : list ifield) (catch : option pstr) : option (pstr * bool) :=
+  match catch with
+  | None => None
+  | Some cf => match find (fun f => pstr_eqb (if_name f) cf) init with
+               | Some f => Some (cf, if_default f)
+               | None => None                      (* the CatchAll field is not an init field: no marker *)
+               end
+  end.
+
+(* the class as the generator sees it, the marker written by class_helper *)
+Definition mk_src (name : pstr) (init : list ifield) (catch : option pstr) (tag : option pstr) : v1src :=
+  {| s_name := name; s_init := init; s_catch := class_marker init catch; s_tag := tag |}.
 
 (* ---- B''. default engine: the loaders generated for ONE class under several roots share the
    class's json_to_field dict (the cache) and differ in the raise flag only (the root's Meta,
